@@ -357,22 +357,22 @@ const (
 
 // VerifState is a snapshot of the volatile state of a server.
 type VerifState struct {
-	Role                               RaftState
-	Term                               uint64
-	CommitIndex, LastApplied           uint64
-	LastLogIndex, LastLogTerm          uint64
+	Role                                RaftState
+	Term                                uint64
+	CommitIndex, LastApplied            uint64
+	LastLogIndex, LastLogTerm           uint64
 	LastSnapshotIndex, LastSnapshotTerm uint64
-	Latest, Committed                  Configuration
-	LatestIndex, CommittedIndex        uint64
-	LeaderAddr                         ServerAddress
-	LeaderID                           ServerID
-	TransferFlag                       bool
-	IsLeaderStateSet                   bool
-	StartIndex                         uint64
-	LeaderCommit                       uint64
-	Inflight                           []uint64
-	Match                              map[ServerID]uint64
-	Next                               map[ServerID]uint64
+	Latest, Committed                   Configuration
+	LatestIndex, CommittedIndex         uint64
+	LeaderAddr                          ServerAddress
+	LeaderID                            ServerID
+	TransferFlag                        bool
+	IsLeaderStateSet                    bool
+	StartIndex                          uint64
+	LeaderCommit                        uint64
+	Inflight                            []uint64
+	Match                               map[ServerID]uint64
+	Next                                map[ServerID]uint64
 }
 
 // VerifNodeState reads the volatile state. Main-thread fields are read without
@@ -417,7 +417,7 @@ func (r *Raft) VerifNodeState() VerifState {
 // VerifGate is what configurationChangeChIfStable looks at.
 type VerifGate struct {
 	CommitIndex, LatestIndex, CommittedIndex, StartIndex uint64
-	IsLeader                                            bool
+	IsLeader                                             bool
 }
 
 // VerifGateSnapshot returns the decision-time values of the membership-change gate.
